@@ -1,5 +1,6 @@
 import TexelVerif.Chess.Mate
 import TexelVerif.Chess.SpecLemmas
+import TexelVerif.Chess.Fen
 /-!
 # Facts about the chess specification used by the repetition theorems
 
@@ -45,6 +46,56 @@ theorem fixupEP_idem (p : Pos) : fixupEP (fixupEP p) = fixupEP p := by
 theorem norm_fixupEP (p : Pos) : Norm (fixupEP p) := fixupEP_idem p
 theorem norm_nextPos (p : Pos) (m : Mv) : Norm (nextPos p m) := fixupEP_idem _
 
+/-! ### the FEN reader's output is normalised -/
+
+theorem legalB_congr (p : Pos) (h f : Nat) (m : Mv) : legalB { p with hmc := h, fmc := f } m = legalB p m := rfl
+theorem genLegal_congr (p : Pos) (h f : Nat) : genLegal { p with hmc := h, fmc := f } = genLegal p := rfl
+theorem fixupEP_congr (p : Pos) (h f : Nat) : fixupEP { p with hmc := h, fmc := f } = { fixupEP p with hmc := h, fmc := f } := by
+  obtain ⟨b, w, c, ep, hm, fm⟩ := p
+  cases ep with
+  | none => rfl
+  | some e =>
+    unfold fixupEP
+    simp only []
+    have e1 : genLegal (⟨b, w, c, some e, h, f⟩ : Pos) = genLegal ⟨b, w, c, some e, hm, fm⟩ := genLegal_congr ⟨b, w, c, some e, hm, fm⟩ h f
+    have e2 : ∀ m : Mv, (⟨b, w, c, some e, h, f⟩ : Pos).at m.f = (⟨b, w, c, some e, hm, fm⟩ : Pos).at m.f := fun _ => rfl
+    simp only [e1, e2]
+    split <;> rfl
+
+/-- the record the FEN reader builds in its last line (`readFENRaw`: e.p. square taken from `fixupEP` of the position with
+    counters 0 / 1, then the counters of the FEN) is normalised -/
+theorem norm_fen_shape (b : Board) (wtm : Bool) (cm : UInt8) (ep : Option Sq) (h f : Nat) :
+    Norm { b := b, wtm := wtm, castle := cm, ep := (fixupEP { b := b, wtm := wtm, castle := cm, ep := ep, hmc := 0, fmc := 1 }).ep,
+           hmc := h, fmc := f } := by
+  unfold Norm
+  have key : fixupEP { b := b, wtm := wtm, castle := cm, ep := ep, hmc := 0, fmc := 1 } =
+      { b := b, wtm := wtm, castle := cm, ep := (fixupEP { b := b, wtm := wtm, castle := cm, ep := ep, hmc := 0, fmc := 1 }).ep, hmc := 0, fmc := 1 } := by
+    rcases fixupEP_cases { b := b, wtm := wtm, castle := cm, ep := ep, hmc := 0, fmc := 1 } with e | e <;> rw [e]
+  have := fixupEP_congr { b := b, wtm := wtm, castle := cm, ep := (fixupEP { b := b, wtm := wtm, castle := cm, ep := ep, hmc := 0, fmc := 1 }).ep, hmc := 0, fmc := 1 } h f
+  simp only [] at this
+  rw [this, ← key, fixupEP_idem, key]
+
+theorem readFENRaw_shape (fen : String) (r : RawPos) (h : readFENRaw fen = .ok r) :
+    ∃ ep, r.ep = (fixupEP { b := r.b, wtm := r.wtm, castle := r.castle, ep := ep, hmc := 0, fmc := 1 }).ep := by
+  unfold readFENRaw at h
+  simp only [bind, Except.bind, pure, Except.pure] at h
+  repeat' split at h
+  all_goals first
+    | (cases h; exact ⟨_, rfl⟩)
+    | (cases h; done)
+
+theorem readFEN_norm (fen : String) (p : Pos) (h : readFEN fen = .ok p) : Norm p := by
+  unfold readFEN at h
+  cases hr : readFENRaw fen with
+  | error e => rw [hr] at h; cases h
+  | ok r =>
+    rw [hr] at h
+    simp only [Except.map] at h
+    cases h
+    obtain ⟨ep, he⟩ := readFENRaw_shape fen r hr
+    unfold RawPos.toPos
+    rw [he]
+    exact norm_fen_shape _ _ _ _ _ _
 /-! ### side to move and clock -/
 
 @[simp] theorem apply_wtm (p : Pos) (m : Mv) : (apply p m).wtm = !p.wtm := rfl
